@@ -12,6 +12,7 @@ overflow was reachable at all is reported, so that a harness can size its input 
 """
 from __future__ import annotations
 
+import os
 import builtins
 import time
 import z3
@@ -1296,8 +1297,8 @@ def explore(shape_id, run, judge, *, max_paths=2000, solver_timeout_ms=20000, ma
 class _Profiler:
     """Collects the repo functions executed on a path (evidence: which real code was encoded)."""
 
-    def __init__(self, root='/repo/src/'):
-        self.root = root
+    def __init__(self, root=None):
+        self.root = root or (os.environ.get('VERIF_REPO', '/repo') + '/src/')
         self.names = set()
 
     def _cb(self, frame, event, arg):
